@@ -39,6 +39,7 @@ FILES = {
     "point": "core/src/geometry/point.rs",
     "size": "core/src/geometry/size.rs",
     "eg_rect": "src/primitives/rectangle/mod.rs",
+    "points": "core/src/primitives/rectangle/points.rs",
 }
 
 # functions translated (with everything they call, transitively). (impl type or None, trait or None, fn name)
@@ -66,6 +67,8 @@ ROOTS = [
     ("Size", None, "component_div"), ("Size", None, "swap_xy"), ("Size", "Add", "add"), ("Size", "Mul<u32>", "mul"),
     ("Size", "Div<u32>", "div"),
     ("AnchorPoint", None, "from_xy"), ("AnchorPoint", None, "x"), ("AnchorPoint", None, "y"),
+    # the `Points` iterator of core/src/primitives/rectangle/points.rs
+    ("Points", None, "new"), ("Points", None, "empty"), ("Points", "Iterator", "next"),
 ]
 
 # ---------------------------------------------------------------------------------------------------------------
@@ -566,7 +569,7 @@ class BodyParser:
                 c.expect(";")
                 stmts.append(("let", t.line, pat, ty, e, mut))
                 continue
-            if c.peek().kind == "id" and c.peek().text in ("fn", "struct", "enum", "impl", "use", "const", "static", "loop", "while", "for", "unsafe"):
+            if c.peek().kind == "id" and c.peek().text in ("fn", "struct", "enum", "impl", "use", "const", "static", "loop", "for", "unsafe"):
                 self.fail(f"`{c.peek().text}` inside a body is not supported")
             e = self.parse_expr(stmt=True)
             if c.at("=") or (c.peek() and c.peek().kind == "p" and c.peek().text in ("+=", "-=", "*=", "/=", "%=")):
@@ -579,7 +582,7 @@ class BodyParser:
                 stmts.append(("expr", e[1], e))
             elif c.eof():
                 tail = e
-            elif e[0] in ("if", "match", "block"):
+            elif e[0] in ("if", "match", "block", "while"):
                 stmts.append(("expr", e[1], e))     # block-like expression statement needs no `;`
             else:
                 self.fail(f"expected `;` or end of block after expression, found `{c.peek().text}`")
@@ -671,6 +674,8 @@ class BodyParser:
             self.fail(f"`{t.text}` not supported")
         if c.at("|") or c.at("||") or c.at("move"):
             return self.parse_closure()
+        if stmt and c.at("while"):
+            return self.parse_primary(nostruct)
         if stmt and (c.at("if") or c.at("match") or c.at("{")):
             # a block-like expression at the start of a statement is a whole statement
             e = self.parse_primary(nostruct)
@@ -858,7 +863,23 @@ class BodyParser:
         if c.at("if"):
             c.next()
             if c.at("let"):
-                self.fail("`if let` not supported")
+                # `if let P = E { A } else { B }` IS `match E { P => { A }, _ => { B } }` (`_ => ()` without else)
+                c.next()
+                pat = self.parse_pattern()
+                c.expect("=")
+                scrut = self.parse_expr(nostruct=True)
+                if c.at("&&") or c.at("||"):
+                    self.fail("let chains not supported")
+                then = self.parse_braced_block()
+                els = ("unit", t.line)
+                if c.at("else"):
+                    c.next()
+                    if c.at("if"):
+                        els_e = self.parse_primary(nostruct)
+                        els = ("block", els_e[1], [], els_e)
+                    else:
+                        els = self.parse_braced_block()
+                return ("match", t.line, scrut, [(pat, then), (("pwild", t.line), els)])
             cond = self.parse_expr(nostruct=True)
             then = self.parse_braced_block()
             els = None
@@ -870,6 +891,13 @@ class BodyParser:
                 else:
                     els = self.parse_braced_block()
             return ("if", t.line, cond, then, els)
+        if c.at("while"):
+            c.next()
+            if c.at("let"):
+                self.fail("`while let` not supported")
+            cond = self.parse_expr(nostruct=True)
+            body = self.parse_braced_block()
+            return ("while", t.line, cond, body)
         if c.at("match"):
             c.next()
             scrut = self.parse_expr(nostruct=True)
@@ -891,7 +919,7 @@ class BodyParser:
                 arms.append((pat, body))
             return ("match", t.line, scrut, arms)
         if t.kind == "id":
-            if t.text in ("loop", "while", "for", "unsafe", "async", "let", "mut", "ref", "static", "const", "dyn", "impl", "fn", "where", "in"):
+            if t.text in ("loop", "for", "unsafe", "async", "let", "mut", "ref", "static", "const", "dyn", "impl", "fn", "where", "in"):
                 self.fail(f"`{t.text}` not supported")
             segs = [c.ident()]
             while c.at("::"):
@@ -961,12 +989,20 @@ PRIM_METHODS = {
     (("RangeInclusive", ("i32",)), "contains"): ("rangeinclusive_i32_contains", ["i32"], "bool"),
     (("RangeInclusive", ("i32",)), "start"): ("rangeinclusive_i32_start", [], "i32"),
     (("RangeInclusive", ("i32",)), "end"): ("rangeinclusive_i32_end", [], "i32"),
+    (("Range", ("i32",)), "is_empty"): ("range_i32_is_empty", [], "bool"),
 }
+# methods of built-in types that MUTATE their receiver: the prelude function returns (value, updated receiver)
+MUT_PRIM_METHODS = {
+    (("Range", ("i32",)), "next"): ("range_i32_next", [], ("Option", ("i32",))),
+}
+RANGE_I32 = ("Range", ("i32",))
+BUILTIN_STRUCTS = {RANGE_I32: ("RangeI32", [("start", "i32"), ("end", "i32")])}
 BIN_ARITH = {"+": "add", "-": "sub", "*": "mul", "/": "div"}
 BIN_CMP = {"==": "eq", "!=": "ne", "<": "lt", ">": "gt", "<=": "le", ">=": "ge"}
 OP_TRAIT = {"+": ("Add", "add"), "-": ("Sub", "sub"), "*": ("Mul", "mul"), "/": ("Div", "div")}
 
-PRELUDE_NAMES = {v[0] for v in PRIM_METHODS.values()} | {
+PRELUDE_NAMES = {v[0] for v in PRIM_METHODS.values()} | {"range_i32_next", "while_loop", "LoopStep", "fuel",
+    "RangeI32_start", "RangeI32_end", "RangeI32_set_start", "RangeI32_set_end"} | {
     f"{t}_{o}" for t in ("i32", "u32") for o in list(BIN_ARITH.values()) + list(BIN_CMP.values())} | {
     "i32_neg", "bool_and", "bool_or", "bool_not", "bool_eq", "bool_ne", "u32_saturating_as_i32", "u32_as_i32", "i32_as_u32",
     "range_i32_new", "rangeinclusive_i32_new", "option_is_some_and", "debug_assert", "Point", "Size", "Rectangle",
@@ -982,6 +1018,7 @@ class Translator:
         self.in_progress = []
         self.out = []         # lean text of defs in dependency order
         self.listing = []     # (lean name, rust description)
+        self.loopy_fns = set()
 
     # ---- names
     def lean_fn_name(self, f):
@@ -1010,8 +1047,8 @@ class Translator:
             if t in LEAN_TYPES:
                 return LEAN_TYPES[t]
             if t in self.prog.structs:
-                if t not in ("Point", "Size", "Rectangle"):
-                    raise RectTrError(f"struct {t} has no counterpart in the prelude")
+                if t not in EXPECTED_STRUCTS and t not in GENERATED_STRUCTS:
+                    raise RectTrError(f"struct {t} has no counterpart in the prelude and is not generated")
                 return t
             if t in self.prog.enums:
                 return t
@@ -1107,23 +1144,64 @@ class Translator:
         ret = self.norm_type(f.ret, st)
         toks, s, e = f.body
         stmts, tail = BodyParser(toks, s, e, where).parse_block_body()
-        ctx = {"ret": ret, "self_type": st, "mut_self": f.self_kind == "refmut"}
-        if f.self_kind == "refmut":
-            if ret != "unit":
-                raise RectTrError(f"{where}: `&mut self` function returning a value not supported")
-            final = lambda env2: ("self", st)
-            body, bt = self.tr_stmts(stmts, 0, tail, env, ctx, None, final, 2)
-            lret = st
-        else:
+        mut_self = f.self_kind == "refmut"
+        loopy = contains_kind((stmts, tail), "while")
+        if loopy and not mut_self:
+            raise RectTrError(f"{where}: `while` loop in a function without `&mut self` (the loop state must be `self`): not supported")
+        # kind of the Lean result: plain value / updated self / (value, updated self); Option-wrapped when the function
+        # contains a loop (the loop runs on explicit fuel; `none` = the fuel did not suffice)
+        kind = "plain" if not mut_self else ("mut_unit" if ret == "unit" else "mut_val")
+        ctx = {"ret": ret, "self_type": st, "mut_self": mut_self, "kind": kind, "loopy": loopy, "in_loop": False}
+        if kind == "plain":
             body, bt = self.tr_stmts(stmts, 0, tail, env, ctx, ret, None, 2)
             self.unify(bt, ret, where + ": result")
-            lret = ret
+            lres = self.lean_type(ret)
+        else:
+            # the tail expression is the returned value: `e` at the end is `return e`
+            if tail is not None:
+                stmts = stmts + [("expr", tail[1], ("return", tail[1], tail))]
+                tail = None
+            def final(env2, ctx=ctx, where=where):
+                if ret != "unit":
+                    raise RectTrError(f"{where}: the end of the body is reached without a value")
+                return self.wrap_result(None, ctx), "never"
+            body, bt = self.tr_stmts(stmts, 0, tail, env, ctx, None, final, 2)
+            lres = self.result_lean_type(ctx)
+            if loopy:
+                lres = f"(Option {lres})"
+                params = [("fuel", "usize")] + params
+                self.loopy_fns.add(f.key())
         name = self.lean_fn_name(f)
-        ps = " ".join(f"({self.lvar(n)} : {self.lean_type(t)})" for (n, t) in params)
+        ps = " ".join(f"({self.lvar(n) if n != 'fuel' else 'fuel'} : {self.lean_type(t) if t != 'usize' else 'Nat'})" for (n, t) in params)
         sig_src = " ".join(x.text for x in toks[max(0, s - 1):s])  # unused, kept simple
         head = f"/-- `{f.rel}` line {f.line}: `{'impl ' + f.trait + ' for ' + st + ' :: ' if f.trait else (st + '::' if st else '')}{f.name}`" \
-               + (" (`&mut self`: returns the updated `self`)" if f.self_kind == "refmut" else "") + " -/\n"
-        return f"{head}def {name}{' ' if ps else ''}{ps} : {self.lean_type(lret)} :=\n  {body}\n"
+               + (" (`&mut self`: returns the updated `self`)" if kind == "mut_unit" else "") \
+               + (" (`&mut self`: returns (value, updated `self`))" if kind == "mut_val" else "") \
+               + (" (contains a loop: runs on `fuel`, `none` = not enough fuel)" if loopy else "") + " -/\n"
+        return f"{head}def {name}{' ' if ps else ''}{ps} : {lres} :=\n  {body}\n"
+
+    def result_lean_type(self, ctx):
+        st = ctx["self_type"]
+        if ctx["kind"] == "mut_unit":
+            return self.lean_type(st)
+        if ctx["kind"] == "mut_val":
+            return f"({self.lean_type(ctx['ret'])} × {self.lean_type(st)})"
+        return self.lean_type(ctx["ret"])
+
+    def wrap_result(self, val, ctx):
+        """the Lean text for `the function returns val now` (val None: unit)"""
+        kind = ctx["kind"]
+        if kind == "plain":
+            base = val
+        elif kind == "mut_unit":
+            base = "self"
+        else:
+            base = f"({val}, self)"
+        if ctx["in_loop"]:
+            return f"(LoopStep.return_ {self.atom(base)})"
+        if ctx["loopy"]:
+            return f"(Option.some {self.atom(base)})"
+        return base
 
     @staticmethod
     def nt(env):
@@ -1174,6 +1252,20 @@ class Translator:
             if pat[0] != "pbind":
                 raise RectTrError(f"{self.where}: line {line}: only `let name = ..` is supported")
             want = self.norm_type(ty, ctx["self_type"]) if ty is not None else None
+            mc = self.mut_call(e, env, ctx, line, ind)
+            if mc is not None:
+                root, fields, rtype, call, vt = mc
+                if vt is None:
+                    raise RectTrError(f"{self.where}: line {line}: `let` bound to a call that returns ()")
+                self.check_assignable(root, env, line)
+                self.unify(vt, want, f"{self.where}: line {line}")
+                env2 = dict(env)
+                env2[pat[2]] = vt
+                env2["%frozen"] = env["%frozen"] - {pat[2]}
+                new = self.place_write(self.lvar(root), rtype, fields, "tmp'.2", line)
+                r, rt = rest(env2)
+                return (f"let tmp' := {call};\n{pad}let {self.lvar(pat[2])} := tmp'.1;\n"
+                        f"{pad}let {self.lvar(root)} := {new};\n{pad}{r}"), rt
             txt, t = self.tr_expr(e, self.nt(env), ctx, want, ind + 2)
             if t == "int?":
                 raise RectTrError(f"{self.where}: line {line}: cannot tell the type of the integer literal bound to `{pat[2]}`")
@@ -1220,18 +1312,16 @@ class Translator:
                 self.unify(ctyp, "bool", f"{self.where}: line {line}")
                 r, rt = rest(env)
                 return f"debug_assert {cnd} (\n{pad}{r})", rt
-            if e[0] == "mcall" and e[2][0] == "path" and len(e[2][2]) == 1 and e[2][2][0] in env and isinstance(env[e[2][2][0]], str) \
-                    and env[e[2][2][0]] in self.prog.structs:
-                v = e[2][2][0]
-                g = self.find_method(env[v], e[3], f"{self.where}: line {line}")
-                if g.self_kind == "refmut":
-                    self.check_assignable(v, env, line)
-                    where = self.where
-                    gname = self.need(g)
-                    self.where = where
-                    args = self.tr_args(e[5], g, env, ctx, line, ind)
-                    r, rt = rest(env)
-                    return f"let {self.lvar(v)} := RectSrc.{gname} {self.lvar(v)}{''.join(' ' + a for a in args)};\n{pad}{r}", rt
+            mc = self.mut_call(e, env, ctx, line, ind)
+            if mc is not None:
+                root, fields, rtype, call, vt = mc
+                self.check_assignable(root, env, line)
+                # the call's value (if any) is dropped, as in the Rust statement `place.m(..);`
+                new = self.place_write(self.lvar(root), rtype, fields, call if vt is None else f"{call}.2", line)
+                r, rt = rest(env)
+                return f"let {self.lvar(root)} := {new};\n{pad}{r}", rt
+            if e[0] == "while":
+                return self.tr_while(e, env, ctx, rest, ind)
             if e[0] == "if":
                 _, _, cond, then, els = e
                 cnd, ctyp = self.tr_expr(cond, self.nt(env), ctx, "bool", ind + 2)
@@ -1267,15 +1357,17 @@ class Translator:
         if not env.get("%tail"):
             raise RectTrError(f"{self.where}: line {e[1]}: `return` inside an expression whose value is used "
                               f"(not a tail position of the function): not supported")
-        if ctx["mut_self"]:
-            if e[2] is not None:
-                raise RectTrError(f"{self.where}: line {e[1]}: `return value` in a `&mut self` function")
-            return "self", "never"
         if e[2] is None:
-            raise RectTrError(f"{self.where}: line {e[1]}: bare `return` not supported")
-        txt, t = self.tr_expr(e[2], env, ctx, ctx["ret"], ind)
+            if ctx["ret"] != "unit":
+                raise RectTrError(f"{self.where}: line {e[1]}: bare `return` in a function returning {type_str(ctx['ret'])}")
+            if ctx["kind"] == "plain":
+                raise RectTrError(f"{self.where}: line {e[1]}: bare `return` not supported here")
+            return self.wrap_result(None, ctx), "never"
+        txt, t = self.tr_expr(e[2], env if ctx["kind"] == "plain" else self.nt(env), ctx, ctx["ret"], ind)
         self.unify(t, ctx["ret"], f"{self.where}: line {e[1]}: returned value")
-        return txt, "never"
+        if ctx["kind"] == "mut_unit":
+            raise RectTrError(f"{self.where}: line {e[1]}: `return value` in a `&mut self` function returning ()")
+        return self.wrap_result(txt, ctx), "never"
 
     # ---- places (assignment targets)
     def place(self, e, env, line):
@@ -1287,7 +1379,20 @@ class Translator:
             raise RectTrError(f"{self.where}: line {line}: assignment target must be `var.field...`")
         return e[2][0], list(reversed(fields))
 
+    def sname(self, t):
+        """the prefix of the accessor functions `<prefix>_<field>` / `<prefix>_set_<field>` / `<prefix>_mk`"""
+        if not isinstance(t, str):
+            if t in BUILTIN_STRUCTS:
+                return BUILTIN_STRUCTS[t][0]
+            raise RectTrError(f"{self.where}: {type_str(t)} is not a struct")
+        return t
+
     def field_type(self, t, fl, line):
+        if not isinstance(t, str) and t in BUILTIN_STRUCTS:
+            for (n, ft) in BUILTIN_STRUCTS[t][1]:
+                if n == fl:
+                    return ft
+            raise RectTrError(f"{self.where}: line {line}: {type_str(t)} has no field `{fl}`")
         if not isinstance(t, str) or t not in self.prog.structs:
             raise RectTrError(f"{self.where}: line {line}: field `{fl}` of non-struct type {type_str(t)}")
         for (n, ft) in self.prog.structs[t]:
@@ -1298,7 +1403,7 @@ class Translator:
     def place_read(self, root, fields, rtype):
         txt, t = self.lvar(root), rtype
         for fl in fields:
-            txt = f"({t}_{fl} {txt})"
+            txt = f"({self.sname(t)}_{fl} {txt})"
             t = self.field_type(t, fl, 0)
         return txt
 
@@ -1307,15 +1412,95 @@ class Translator:
             return val
         fl = fields[0]
         ft = self.field_type(t, fl, line)
-        inner = self.place_write(f"({t}_{fl} {cur})", ft, fields[1:], val, line)
-        return f"({t}_set_{fl} {cur} {inner})"
+        inner = self.place_write(f"({self.sname(t)}_{fl} {cur})", ft, fields[1:], val, line)
+        return f"({self.sname(t)}_set_{fl} {cur} {inner})"
+
+    # ---- calls that mutate their receiver: `PLACE.m(args)` with m a `&mut self` method (user or built-in)
+    def mut_call(self, e, env, ctx, line, ind):
+        """None, or (root variable, fields, root type, Lean text of the call, value type or None for unit):
+        the call's Lean value is the updated receiver (unit methods) or (value, updated receiver)."""
+        if e[0] != "mcall":
+            return None
+        r = e[2]
+        flds = []
+        while r[0] == "field":
+            flds.append(r[3])
+            r = r[2]
+        if r[0] != "path" or len(r[2]) != 1 or r[2][0] not in env or r[2][0].startswith("%"):
+            return None
+        root, fields = r[2][0], list(reversed(flds))
+        rtype = env[root]
+        t = rtype
+        for fl in fields:
+            t = self.field_type(t, fl, line)
+        name, args = e[3], e[5]
+        recv = self.place_read(root, fields, rtype)
+        if (t, name) in MUT_PRIM_METHODS:
+            fn, ptypes, ret = MUT_PRIM_METHODS[(t, name)]
+            if e[4] is not None or len(args) != len(ptypes):
+                raise RectTrError(f"{self.where}: line {line}: `{name}` takes {len(ptypes)} argument(s) and no turbofish")
+            out = []
+            for a, pt in zip(args, ptypes):
+                txt, at = self.tr_expr(a, self.nt(env), ctx, pt, ind)
+                self.unify(at, pt, f"{self.where}: line {line}")
+                out.append(self.atom(txt))
+            return root, fields, rtype, f"({fn} {recv}{''.join(' ' + x for x in out)})", ret
+        if isinstance(t, str) and t in self.prog.structs:
+            g = self.find_method(t, name, f"{self.where}: line {line}")
+            if g.self_kind != "refmut":
+                return None
+            where = self.where
+            gname = self.need(g)
+            self.where = where
+            if g.key() in self.loopy_fns:
+                raise RectTrError(f"{self.where}: line {line}: call of `{g.name}`, which contains a loop: not supported")
+            a = self.tr_args(args, g, env, ctx, line, ind)
+            ret = self.norm_type(g.ret, g.impl_type)
+            return root, fields, rtype, f"(RectSrc.{gname} {recv}{''.join(' ' + x for x in a)})", (None if ret == "unit" else ret)
+        return None
+
+    def tr_while(self, e, env, ctx, rest, ind):
+        _, line, cond, body = e
+        W = f"{self.where}: line {line}"
+        pad = " " * ind
+        if ctx["in_loop"]:
+            raise RectTrError(f"{W}: nested `while` loops not supported")
+        if not env.get("%tail") or not ctx["loopy"] or not ctx["mut_self"]:
+            raise RectTrError(f"{W}: `while` is only supported as a statement of a `&mut self` function (loop state = `self`)")
+        self.check_assignable("self", env, line)
+        cnd, ct = self.tr_expr(cond, self.nt(env), ctx, "bool", ind + 4)
+        self.unify(ct, "bool", W)
+        ctx2 = dict(ctx, in_loop=True)
+        envb = dict(env)
+        envb["%frozen"] = frozenset(k for k in env if not k.startswith("%") and k != "self")
+        btxt, _ = self.tr_stmts(body[2], 0, body[3], envb, ctx2, None,
+                                lambda env2: ("(LoopStep.continue_ self)", "never"), ind + 4)
+        rtxt, rt = rest(env)
+        st = self.lean_type(ctx["self_type"])
+        return (f"(match while_loop (σ := {st}) (ρ := {self.result_lean_type(ctx)}) fuel\n"
+                f"{pad}    (fun self => {cnd})\n"
+                f"{pad}    (fun self =>\n{pad}    {btxt}) self with\n"
+                f"{pad}  | Option.none => Option.none\n"
+                f"{pad}  | Option.some (LoopStep.return_ r') => Option.some r'\n"
+                f"{pad}  | Option.some (LoopStep.continue_ self) =>\n{pad}    {rtxt})"), rt
 
     # ---- match
     def tr_match(self, e, env, ctx, expected, final, ind):
         _, line, scrut, arms = e
         pad = " " * ind
-        stxt, stype = self.tr_expr(scrut, self.nt(env), ctx, None, ind + 2)
-        out = [f"(match {stxt} with"]
+        mc = self.mut_call(scrut, env, ctx, line, ind)
+        prefix = ""
+        if mc is not None:
+            root, fields, rtype, call, vt = mc
+            if vt is None:
+                raise RectTrError(f"{self.where}: line {line}: match on a call that returns ()")
+            self.check_assignable(root, env, line)
+            new = self.place_write(self.lvar(root), rtype, fields, "tmp'.2", line)
+            prefix = f"(let tmp' := {call};\n{pad}let {self.lvar(root)} := {new};\n{pad}"
+            stxt, stype = "tmp'.1", vt
+        else:
+            stxt, stype = self.tr_expr(scrut, self.nt(env), ctx, None, ind + 2)
+        out = [f"{prefix}(match {stxt} with"]
         rtype = "never"
         for (pat, body) in arms:
             alts = pat[2] if pat[0] == "por" else [pat]
@@ -1340,7 +1525,7 @@ class Translator:
                     btxt, bt = self.tr_stmts([("expr", body[1], body)], 0, None, env2, ctx, expected, final, ind + 4)
             rtype = self.join(rtype, bt, line)
             out.append(f"{pad}  | {' | '.join(ptxts)} =>\n{pad}    {btxt}")
-        return ("\n".join(out) + ")"), rtype
+        return ("\n".join(out) + ")" + (")" if prefix else "")), rtype
 
     def tr_pat(self, p, t, binds, line):
         k = p[0]
@@ -1409,6 +1594,8 @@ class Translator:
         self.where = where
         if g.self_kind == "refmut":
             raise RectTrError(f"{self.where}: line {line}: `&mut self` method {g.name} may only be called as a statement on a local variable")
+        if g.key() in self.loopy_fns:
+            raise RectTrError(f"{self.where}: line {line}: call of `{g.name}`, which contains a loop: not supported")
         a = self.tr_args(args, g, env, ctx, line, ind)
         if self_arg is not None:
             a = [self.atom(self_arg)] + a
@@ -1456,7 +1643,7 @@ class Translator:
         if k == "field":
             rtxt, rt = self.tr_expr(e[2], env, ctx, None, ind)
             ft = self.field_type(rt, e[3], line)
-            return f"({rt}_{e[3]} {self.atom(rtxt)})", ft
+            return f"({self.sname(rt)}_{e[3]} {self.atom(rtxt)})", ft
         if k == "neg":
             txt, t = self.tr_expr(e[2], env, ctx, expected, ind)
             if t == "int?":
@@ -1485,7 +1672,9 @@ class Translator:
             return self.tr_bin(e, env, ctx, expected, ind)
         if k == "range":
             _, _, incl, lo, hi = e
-            a, at, b, bt = self.tr_pair(lo, hi, env, ctx, None, ind, W)
+            elem = expected[1][0] if (expected is not None and not isinstance(expected, str)
+                                      and expected[0] in ("Range", "RangeInclusive") and len(expected[1]) == 1) else None
+            a, at, b, bt = self.tr_pair(lo, hi, env, ctx, elem, ind, W)
             if at != "i32":
                 raise RectTrError(f"{W}: range over {type_str(at)} not supported")
             if incl:
@@ -1701,6 +1890,17 @@ class Translator:
 
 OP_TRAIT_NAMES = {"Add", "Sub", "Mul", "Div", "Neg"}
 
+
+def contains_kind(node, kind):
+    """does the AST contain a node of this kind"""
+    if isinstance(node, tuple):
+        if node and node[0] == kind and len(node) > 1 and isinstance(node[1], int):
+            return True
+        return any(contains_kind(x, kind) for x in node)
+    if isinstance(node, list):
+        return any(contains_kind(x, kind) for x in node)
+    return False
+
 HEADER = """/-
   EG.Generated.RectSrc — GENERATED by tools/tr_rect.py from /repo's current sources. Do not edit.
 
@@ -1757,6 +1957,22 @@ EXPECTED_STRUCTS = {
 }
 
 
+# structs that have no counterpart in the project's basic types: declared in the generated file, from the Rust declaration
+GENERATED_STRUCTS = ["Points"]
+
+
+def struct_decl(tr, name):
+    fields = [(n, tr.norm_type(t, name)) for (n, t) in tr.prog.structs[name]]
+    lt = [(n, tr.lean_type(t)) for (n, t) in fields]
+    out = [f"/-- `struct {name}` (declared from the Rust declaration; accessors as for the prelude's structs) -/\nstructure {name} where\n"
+           + "".join(f"  {n} : {t}\n" for n, t in lt) + "  deriving DecidableEq, Repr\n"]
+    out.append(f"abbrev {name}_mk " + " ".join(f"({n} : {t})" for n, t in lt) + f" : {name} := ⟨" + ", ".join(n for n, _ in lt) + "⟩\n")
+    for n, t in lt:
+        out.append(f"abbrev {name}_{n} (s : {name}) : {t} := s.{n}\n")
+        out.append(f"abbrev {name}_set_{n} (s : {name}) (v : {t}) : {name} := {{ s with {n} := v }}\n")
+    return "".join(out) + "\n"
+
+
 def translate(repo):
     prog = load_program(repo)
     # the prelude gives `Point` / `Size` / `Rectangle` as EG.Pt / EG.Sz / EG.Rect: the declarations must be these
@@ -1771,6 +1987,10 @@ def translate(repo):
             raise RectTrError(f"enum {en} not found")
         text.append(f"/-- `enum {en}` of core/src/geometry/mod.rs -/\ninductive {en} where\n"
                     + "".join(f"  | {v}\n" for v in prog.enums[en]) + "  deriving DecidableEq, Repr\n\n")
+    for sn in GENERATED_STRUCTS:
+        if sn not in prog.structs:
+            raise RectTrError(f"struct {sn} not found")
+        text.append(struct_decl(tr, sn))
     for (it, trn, n) in ROOTS:
         tr.need(tr.find_fn(it, trn, n, "roots"))
     text.append("\n".join(tr.out))
@@ -1809,13 +2029,15 @@ impl Rectangle {
 SELFTEST_CASES = [
     ("ok_prec", "-a as u32 * 2", "u32", None, "(u32_mul (i32_as_u32 (i32_neg a)) (2 : Nat))"),
     ("ok_early_return", "if a > 0 { return 1; } let c = a + 1; c", "i32", None, "if (i32_gt a (0 : Int)) then\n    (1 : Int)\n  else\n    let c := (i32_add a (1 : Int));"),
-    ("ok_mut_local", "let mut r = *self; r.bump(a); r.size.width = b; r", "Rectangle", None, "let r := RectSrc.bump r a;"),
+    ("ok_mut_local", "let mut r = *self; r.bump(a); r.size.width = b; r", "Rectangle", None, "let r := (RectSrc.bump r a);"),
     ("ok_match_or", "match k { AnchorX::Left | AnchorX::Center => 0, AnchorX::Right => a }", "i32", None, "| AnchorX.Left | AnchorX.Center =>"),
     ("bad_while", "let mut i = 0; while i < a { i += 1; } i", "i32", "`while`", None),
     ("bad_for", "for i in 0..a { } a", "i32", "`for`", None),
     ("bad_loop", "loop { return a; }", "i32", "`loop`", None),
     ("bad_question", "let p = o?; p.x", "i32", "`?` not supported", None),
-    ("bad_if_let", "if let Some(p) = o { p.x } else { a }", "i32", "`if let`", None),
+    ("ok_if_let", "if let Some(p) = o { p.x } else { a }", "i32", None, "(match o with\n    | Option.some p =>\n      (Point_x p)\n    | _ =>\n      a)"),
+    ("bad_while_let", "while let Some(p) = o { } a", "i32", "`while let`", None),
+    ("bad_let_chain", "if let Some(p) = o && a > 0 { p.x } else { a }", "i32", "type mismatch", None),
     ("bad_macro", "assert!(a > 0); a", "i32", "macro `assert!`", None),
     ("bad_index", "let v = a; v[0]", "i32", "indexing", None),
     ("bad_unknown_method", "a.wrapping_add(1)", "i32", "not known to the translator", None),
@@ -1831,7 +2053,8 @@ SELFTEST_CASES = [
     ("bad_code_after_return", "return a; a", "i32", "code after `return`", None),
     ("bad_type_mismatch", "b", "i32", "type mismatch", None),
     ("bad_mixed_arith", "a + b", "i32", "not supported", None),
-    ("bad_mut_call_in_expr", "let mut r = *self; let q = r.bump(a); a", "i32", "only be called as a statement", None),
+    ("bad_mut_call_in_expr", "let mut r = *self; let q = r.bump(a); a", "i32", "`let` bound to a call that returns ()", None),
+    ("bad_mut_call_nested", "let mut r = *self; let q = a + { r.bump(a); 1 }; q", "i32", "modified inside a block used as a value", None),
     ("bad_closure", "let f = |x| x + 1; a", "i32", "closure outside a supported combinator", None),
     ("bad_struct_pattern", "match o { Some(Point { x, y }) => x, None => a }", "i32", "struct patterns", None),
     ("bad_guard", "match o { Some(p) if a > 0 => p.x, _ => a }", "i32", "match guards", None),
